@@ -275,6 +275,13 @@ def build_refinement(r):
             return Dependent(sib, lambda a, names=names: VarRange(names[:a]))
         if rule[0] == "listsize_upto":
             return Dependent(sib, lambda a: ListSizeBetween(0, a))
+        if rule[0] == "varrange_same":
+            # the dependent value must be the sibling's value itself (passes values through untouched)
+            return Dependent(sib, lambda a: VarRange([a]))
+        if rule[0] == "encode_two":
+            # two dependencies, listed in `sib` ("e0,d0") in another order than they are declared:
+            # the callable's parameters follow the LISTED order; the result is not symmetric
+            return Dependent(sib, lambda first, second: IntRange(10 * first + second, 10 * first + second))
         raise ValueError(rule)
     if k == "UserMH":
         IdentityMH, RaiseIfMH = _user_mh_classes()
@@ -439,6 +446,7 @@ class Flags:
         max_list_size=3,
         permute_considered=True,
         sibling=True,
+        omit_abstracts=True,
         listops=True,  # ListSizeBetween (with custom mutate/crossover) vs LSBWLO only
         nested_generics=True,  # list[Union[..]], list[tuple[..]]
         self_refs=True,  # Union[Self, other]
@@ -694,7 +702,7 @@ def specs(draw, fl: Flags | None = None):
             fields[j] = [fields[j][0], ["union", alts]]
         # dependent refinements: rewrite a later field to depend on an earlier int field
         if fl.dependent and len(fields) >= 1 and draw(st.booleans()):
-            kind = draw(st.sampled_from(["intrange_from", "varrange_prefix", "listsize_upto"] if _has_lists(fl) else ["intrange_from", "varrange_prefix"]))
+            kind = draw(st.sampled_from((["intrange_from", "varrange_prefix", "listsize_upto"] if _has_lists(fl) else ["intrange_from", "varrange_prefix"]) + (["varrange_same", "encode_two"] if fl.strs else ["encode_two"])))
             sib = ["ann", ["int"], ["IntRange", 0, draw(st.integers(1, 2))]]
             if kind == "intrange_from":
                 dep = ["ann", ["int"], ["Dependent", "d0", ["intrange_from", draw(st.integers(0, 2))]]]
@@ -704,6 +712,12 @@ def specs(draw, fl: Flags | None = None):
                 else:
                     sib = ["ann", ["int"], ["IntRange", 1, 2]]
                 dep = ["ann", ["str"], ["Dependent", "d0", ["varrange_prefix", ["x", "y"]]]]
+            elif kind == "varrange_same":
+                sib = ["ann", ["str"], ["VarRange", ["x", "y"]]]
+                dep = ["ann", ["str"], ["Dependent", "d0", ["varrange_same"]]]
+            elif kind == "encode_two":
+                sib = ["ann", ["int"], ["IntRange", 0, 2]]
+                dep = ["ann", ["int"], ["Dependent", "e0,d0", ["encode_two"]]]
             else:
                 elem = draw(st.sampled_from([["ref", n] for n in targets] + [["ann", ["int"], ["IntRange", 0, 1]]]))
                 dep = ["ann", ["list", elem], ["Dependent", "d0", ["listsize_upto"]]]
@@ -715,8 +729,22 @@ def specs(draw, fl: Flags | None = None):
             # a sibling between d0 and d1 that is a concrete production with a field of the same
             # name d0 (name clash between a node's fields and those of a nested node)
             clash = [x["name"] for x in concretes[:-1] if any(fn == "d0" for fn, _ in x["fields"])]
+            if not fl.finite_choice and len(concretes) < fl.max_concrete + 2 and draw(st.integers(0, 2)) == 0:
+                # ... of ANOTHER type / range than this production's d0 (inserted before c so that it is
+                # declared first); reached directly, through a union or under an abstract type
+                other_t = draw(st.sampled_from([["ann", ["int"], ["IntRange", 5, 9]], ["list", ["int"]], ["bool"], ["ann", ["int"], ["IntRange", 1, 1]]]))
+                me = concretes.pop()
+                q = new_conc(draw(st.sampled_from([None] + abs_names)), [["d0", other_t]])
+                q["name"] = f"CQ{len(concretes)}"
+                concretes.append(me)
+                clash = clash + [q["name"]]
             if clash and draw(st.booleans()):
-                between = between + [["n0", ["ref", draw(st.sampled_from(clash))]]]
+                tgt = ["ref", draw(st.sampled_from(clash))]
+                if fl.unions and draw(st.integers(0, 2)) == 0:
+                    tgt = ["union", [tgt, draw(_base_type(fl))]]
+                between = between + [["n0", tgt]]
+            if kind == "encode_two":
+                between = between + [["e0", ["ann", ["int"], ["IntRange", 5, 6]]]]
             c["fields"] = rest[:pre] + [["d0", sib]] + between + [["d1", dep]] + rest[cut:]
         elif fl.infeasible and fl.user_mh and len(fields) >= 1 and draw(st.integers(0, 2)) == 0:
             sib = ["ann", ["int"], ["IntRange", 0, 1]]
@@ -777,6 +805,13 @@ def specs(draw, fl: Flags | None = None):
         keep = set(considered)
         spec["abstracts"] = [a for a in abstracts if a["name"] in keep]
         spec["concretes"] = [c for c in concretes if c["name"] in keep]
+    if fl.omit_abstracts and draw(st.integers(0, 2)) == 0:
+        # README style: only (some of) the classes are listed; abstract types other than the start
+        # symbol are left to be discovered through their listed subclasses and through field types
+        inter = [a["name"] for a in spec["abstracts"] if a["name"] != start]
+        if inter:
+            drop = set(draw(st.lists(st.sampled_from(inter), unique=True, min_size=1, max_size=len(inter))))
+            spec["considered"] = [n for n in spec["considered"] if n not in drop]
     if fl.sibling and draw(st.integers(0, 3)) == 0:
         # a second grammar extracted from (a subset of) the same classes right after the first
         spec["sibling"] = [draw(st.integers(0, 12)), draw(st.booleans()), draw(st.one_of(st.none(), st.integers(0, 12))), draw(st.integers(0, 3)) == 0]
